@@ -7,6 +7,8 @@ import (
 	"container/list"
 	"sync"
 	"sync/atomic"
+
+	"github.com/pion/webrtc/v4/internal/verifhook"
 )
 
 // Operation is a function.
@@ -83,6 +85,7 @@ func (o *operations) Done() {
 		wg.Done()
 	})
 	o.mu.Unlock()
+	verifhook.Point("ops.done.enqueued")
 	if !enqueued {
 		return
 	}
@@ -105,6 +108,7 @@ func (o *operations) GracefulClose() {
 
 	busyCh := o.busyCh
 	o.mu.Unlock()
+	verifhook.Point("ops.close.unlocked")
 	if busyCh == nil {
 		return
 	}
@@ -129,6 +133,7 @@ func (o *operations) pop() func() {
 
 func (o *operations) start() {
 	defer func() {
+		verifhook.Point("ops.worker.deferred")
 		o.mu.Lock()
 		defer o.mu.Unlock()
 		if o.ops.Len() != 0 {
@@ -143,16 +148,22 @@ func (o *operations) start() {
 		// the queue is drained: release GracefulClose
 		close(o.busyCh)
 		o.busyCh = nil
+		verifhook.Point("ops.worker.exit")
 	}()
 
+	verifhook.Point("ops.worker.start")
 	fn := o.pop()
 	for fn != nil {
+		verifhook.Point("ops.worker.popped")
 		fn()
+		verifhook.Point("ops.worker.ran")
 		fn = o.pop()
 	}
+	verifhook.Point("ops.worker.popnil")
 	if !o.updateNegotiationNeededFlagOnEmptyChain.Load() {
 		return
 	}
+	verifhook.Point("ops.worker.flagged")
 	o.updateNegotiationNeededFlagOnEmptyChain.Store(false)
 	o.onNegotiationNeeded()
 }
